@@ -95,6 +95,14 @@ def check(ctx):
                         ctx.ob("R-2", "assert:%s:raw-pointer-check" % f.key, False,
                                "a raw pointer that does not come from a Box is dereferenced in %s" % f.key, where=f.where(bi))
                     continue
+                if t["kind"].startswith("Overflow(Add") and _small_plus_len(c):
+                    # `Vec::with_capacity(5 + self.params.len())`: a Vec of non-zero-sized elements holds at most isize::MAX bytes,
+                    # so len() <= isize::MAX and a small constant more cannot wrap a usize
+                    kinds["guarded"] += 1
+                    ctx.ob("R-2", "assert:%s:%s" % (f.key, t["kind"]), True,
+                           "arithmetic assert %s: small constant + Vec::len() cannot overflow (len <= isize::MAX)" % t["kind"],
+                           where=f.where(bi))
+                    continue
                 vl = vl or VecLen(f)
                 obs = [o for o in vl.obligations if o["bb"] == bi and o["kind"] == "sub"]
                 ok = bool(obs) and all(o["ok"] for o in obs)
@@ -558,6 +566,18 @@ def _invariant(ctx, prog, cg, f, bb, t, which):
     return False, "unknown invariant"
 
 
+def _small_plus_len(c):
+    """overflow flag of `k + v.len()` (either order) with 0 <= k <= 2^31 and v a Vec"""
+    if not (c[0] == "field" and c[2] == "1" and c[1][0] == "binop" and c[1][1] == "AddWithOverflow"):
+        return False
+    a, b = c[1][2], c[1][3]
+    for k, l in ((a, b), (b, a)):
+        if k[0] == "const" and isinstance(k[1], int) and not isinstance(k[1], bool) and 0 <= k[1] <= 2 ** 31 \
+                and is_call(l, "alloc::vec::Vec::<T, A>::len"):
+            return True
+    return False
+
+
 def _value_param(f):
     for i in range(f.arg_count):
         if f.local_ty(i + 1) == "ciborium::value::Value":
@@ -617,6 +637,16 @@ def _check_scc(ctx, prog, cg, comp):
     for k in comp:
         f = F(k)
         bp = _budget_param(f)
+        creator = None
+        if f.kind == "Closure":
+            # a closure handed to an iterator adaptor (`.map(|s| T::from_cbor_value_depth(s, depth))`): it carries the budget of the
+            # function that builds it, as a captured variable; its calls are judged in that function's terms
+            creator = _closure_creator(prog, cg, compset, k)
+            if creator is None:
+                problems.append("%s (a closure) re-enters the parser but is not built by exactly one function of the cycle" % k)
+                continue
+            cf, cterm = creator
+            bp = _budget_param(cf)
         if bp is None:
             problems.append("%s re-enters the parser in a call cycle but has no usize budget parameter" % k)
             continue
@@ -627,11 +657,18 @@ def _check_scc(ctx, prog, cg, comp):
             g = F(tgt)
             gbp = _budget_param(g)
             for kind, bb in sites:
+                if kind == "closure" and g.kind == "Closure":
+                    continue        # building the closure passes nothing yet; its calls are judged above
                 if kind != "call" or gbp is None:
                     problems.append("%s -> %s: budget is not passed (edge kind %s)" % (k, tgt, kind))
                     continue
                 t = f.blocks[bb]["term"]
                 a = pv.operand_term(t["args"][gbp], bb, "term")
+                if creator is not None:
+                    from lib.prov import subst_params, resolve_closure_fields
+                    a = resolve_closure_fields(subst_params(a, [creator[1]]))
+                    while a[0] in ("ref", "deref"):
+                        a = a[1]
                 if a == ("param", bp):
                     continue
                 if _is_decrement(a, bp):
@@ -650,8 +687,8 @@ def _check_scc(ctx, prog, cg, comp):
         for tgt, sites in tgts.items():
             if tgt not in compset:
                 continue
-            if cg.def_of(caller) not in prog.fns:
-                continue
+            if cg.def_of(caller) not in prog.fns or cg.def_of(caller) in prog.fully_inlined:
+                continue        # a private helper all of whose uses were expanded in place: judged in each caller
             f = prog.fns[cg.def_of(caller)]
             g = F(tgt)
             gbp = _budget_param(g)
@@ -669,6 +706,24 @@ def _check_scc(ctx, prog, cg, comp):
            "call cycle {%s} re-enters the CBOR parser (fresh 256 budget) and is bounded by a decremented depth budget" % ", ".join(comp),
            detail={"problems": problems, "decrementing_edges": sorted(dec_edges)},
            sample={"scc": comp, "kind": "budgeted", "decrementing_edges": sorted(dec_edges)})
+
+
+def _closure_creator(prog, cg, compset, ck):
+    """(function, closure term as built there) for a closure node of a call cycle, if exactly one function of the cycle builds it"""
+    made = []
+    for k in compset:
+        f = prog.fns[cg.def_of(k)]
+        if f.kind == "Closure":
+            continue
+        pv = None
+        for bi, b in enumerate(f.blocks):
+            if b["cleanup"]:
+                continue
+            for si, s in enumerate(b["stmts"]):
+                if s["k"] == "assign" and s["rv"]["k"] == "aggr" and s["rv"].get("kind") == "closure" and s["rv"]["closure"] == ck:
+                    pv = pv or Prov(f)
+                    made.append((f, pv.rvalue_term(s["rv"], bi, si)))
+    return made[0] if len(made) == 1 else None
 
 
 def _is_decrement(a, bp):
